@@ -209,7 +209,7 @@ def prop_uuid(case, rec):
     rsmodel.write_ruleset(rd, m2)
     b = guard(case, session.run_main, root, ['-r', 'T', '-s', 'x', '--load'])
     same = case['other_uuid'] == m['uuid']
-    rec.case({'uuid': m['uuid'], 'other': case['other_uuid'], 'cut': k}, not same, ['uuid_same' if same else 'uuid_differs'],
+    rec.case({'uuid': m['uuid'], 'other': case['other_uuid'], 'cut': k}, not same, ['uuid_same' if same else 'uuid_differs'] + (['uuid_empty_or_falsy_text'] if m['uuid'] in ('', '0', 'None', 'False') or case['other_uuid'] in ('', '0') else []),
              key=[m, k, case['other_uuid']])
     if not same:
         if b.lines:
@@ -225,7 +225,10 @@ def prop_uuid(case, rec):
 @st.composite
 def uuid_cases(draw):
     m = draw(S.rulesets(max_pt=30, markov='no', max_structs=2))
-    other = draw(st.sampled_from(['uuid-0', 'uuid-1', 'zzz', m['uuid'], m['uuid'] + 'x', m['uuid'].upper(), m['uuid'][:-1]]))
+    if draw(st.integers(0, 3)) == 0:
+        # identifiers of hand-made rulesets: empty, or text that reads as "nothing" in Python
+        m['uuid'] = draw(st.sampled_from(['', '', '0', 'None', 'False']))
+    other = draw(st.sampled_from(['uuid-0', 'uuid-1', 'zzz', m['uuid'], m['uuid'] + 'x', m['uuid'].upper(), m['uuid'][:-1], '', '0']))
     return {'model': m, 'cut': draw(st.integers(0, 20)), 'other_uuid': other}
 
 
